@@ -14,7 +14,7 @@ dst = os.path.join(V, 'seeded', name)
 os.makedirs(dst, exist_ok=True)
 for f in os.listdir(src):
     p = os.path.join(src, f)
-    if os.path.isfile(p) and os.path.getsize(p) < 2_000_000:
+    if os.path.isfile(p) and os.path.getsize(p) < 2_000_000 and os.path.abspath(p) != os.path.abspath(os.path.join(dst, f)):
         shutil.copy(p, os.path.join(dst, f))
 patch = os.path.join(dst, 'patch.diff')
 
